@@ -100,13 +100,29 @@ CLAIMED["C18"] = (E7, "property-based testing (proptest) of rumqttc EventLoop v4
 
 E5 = "E5 fullstack"
 for _p, _extra in {
-  "C16": " Full-stack layer (E5): the real per-connection task remote() over an in-memory stream with the real router loop: connections with/without will end by DISCONNECT, close at any point (mid-packet, after PUBLISH), malformed packets, router-initiated close, keep-alive expiry (thorough): an observer receives the will exactly once before a sentinel iff the client did not send DISCONNECT; retained copy visible to a late subscriber.",
-  "C19": " Full-stack layer (E5): first bytes on a fresh connection (CONNECT with at most one defect: wrong protocol level/name, keep-alive 0, client id with + $ # /, empty id with/without clean session, login absent/wrong/right; any other packet; garbage; silence) against listeners with no auth / static map / external callback / both, followed by SUBSCRIBE+PUBLISH: a successful CONNACK is written iff the reference admission rule admits; otherwise the follow-up has no effect (observer + sentinel, session probe); end-to-end takeover.",
+  "C16": " Full-stack layer (E5): the real per-connection task remote() over an in-memory stream with the real router loop: connections with/without will end by DISCONNECT, close at any point (mid-packet, after PUBLISH), malformed packets, router-initiated close, keep-alive expiry (thorough), in a fifth of the client-side ends with the router backed up (event channel full, what remote() hands over must wait): an observer receives the will exactly once before a sentinel iff the client did not send DISCONNECT; retained copy visible to a late subscriber.",
+  "C19": " Full-stack layer (E5): first bytes on a fresh connection (CONNECT with one or two defects: wrong protocol level/name, keep-alive 0, client id with + $ # /, empty id with/without clean session, login absent/wrong/right; any other packet; garbage; silence) against listeners with no auth / static map / external callback / both, followed by SUBSCRIBE+PUBLISH: a successful CONNACK is written iff the reference admission rule admits; otherwise the follow-up has no effect (observer + sentinel, session probe); end-to-end takeover.",
   "C20": " Full-stack layer (E5): publisher and subscriber through real v4/v5 connection tasks for all four version pairs, every subset of v5 publish properties incl. topic alias, QoS 0-2 with full ack flows: the subscriber's bytes decode to the published topic/payload (properties preserved towards v5, legal 3.1.1 frame towards v4) and both tasks stay alive (no panic, PINGRESP).",
 }.items():
     e, t, text, note, ref = CLAIMED[_p]
     text = text.replace(" The decision logic of remote() (which event is sent when) is not yet covered here (planned E5).", "").replace(" CONNECT validation / authentication (first sentence) is covered by the E5 engine, being merged.", "").replace(" The end-to-end variant through two per-connection tasks is covered by the E5 engine, being merged.", "")
     CLAIMED[_p] = (e + " + " + E5, t + "; full-stack scripted clients against remote()+RemoteLink+Network over in-memory streams, barrier-synchronised", text + _extra, note + " E5 runs real tasks and a router thread: assertions are barrier-synchronised (sentinel messages, FIFO of the router channel); a watchdog expiry is inconclusive, never a violation. Hooks H1, H3, H5.", ref)
+
+for _p, _extra in {
+  "C09": " Full-stack layer (E5, campaign e5_flow): sustained publisher->subscriber flows (1-320 messages, QoS 0-2, payloads up to 3 KB) through the real connection tasks (RemoteLink/Network over 64 KiB duplex streams) with a generated read/ack rhythm incl. long pauses: exact ordered delivery, <=100 unacknowledged forwards with distinct ids, one PUBREL per PUBREC, and resumption without further stimulus decided by a clock-free quiescence detector.",
+  "C01": " The delivery clauses are also decided end to end through the real link code by the E5 campaign e5_flow (see C09).",
+  "C06": " The acknowledgement clauses are also decided at the publisher's socket by the E5 campaign e5_flow (see C09); a second E4 campaign (acks_churn) pipelines requests behind closing packets next to two asserted-on clients.",
+  "C14": " Full-stack layer (E5, campaign e5_isolation): a witness flow (publisher, subscriber, optional bystander) next to 1-3 adversaries acting at byte level through real connection tasks (takeovers, reconnect storms, stalled consumers, unsolicited acks, invalid packets, frames cut at any byte, garbage, abrupt/half closes): the witnesses' streams stay exact and alive, the router thread neither panics nor blocks inside an iteration. A second E4 campaign (late_witness) lets a witness connect into a slab slot and next to filter logs that finished connections (incl. shared subscribers) have used.",
+}.items():
+    e, t, text, note, ref = CLAIMED[_p]
+    CLAIMED[_p] = (e + " + " + E5, t + "; full-stack flows through remote()+RemoteLink+Network over in-memory streams with a quiescence detector", text + _extra, note + " E5 runs real tasks and a router thread: safety clauses are checked while reading, liveness by quiescence (router idle with an empty channel, no runnable connection task, nothing readable; observed twice); a watchdog expiry is inconclusive, never a violation.", ref)
+
+for _p, _extra in {
+  "C12": " The broker's topic->filters cache (DataLog::matches / next_native_offset) is decided by an E4 campaign (router_cache): SUBSCRIBE/PUBLISH histories over a dense topic/filter alphabet against the real router with the reference matcher as delivery oracle.",
+  "C03": " A second campaign (retention) runs the same alphabet over logs of 1-2 segments of 1-2 KiB so that parked, paused and resumed requests meet evicted segments and segment boundaries.",
+}.items():
+    e, t, text, note, ref = CLAIMED[_p]
+    CLAIMED[_p] = (e if _p == "C03" else e + " + E4 brokersim", t, text + _extra, note, ref)
 
 NOT_YET = "check not built yet in this revision of /verif (under construction; see DESIGN.md §5 for the planned generator and oracle)"
 
@@ -142,9 +158,9 @@ def main():
             {"name": "E3 commitlog", "path": "harness/src/commitlog.rs", "serves_properties": ["C13"], "kind_free_text": "append-history model + op interpreter + proptest + short-sequence enumerator"},
             {"name": "E1 codec", "path": "harness/src/codec/", "serves_properties": ["C04", "C05"], "kind_free_text": "neutral packet model, generators, 4 codec adapters, reference framer/encoder/decoder, chunked stream drivers"},
             {"name": "E7 clientloop", "path": "harness/src/clientloop/", "serves_properties": ["C02", "C07", "C10", "C11", "C18"], "kind_free_text": "rumqttc EventLoop v4/v5 over an in-memory transport (hook H6), paused clock, scripted broker with byte-exact fault injection, log oracle"},
-            {"name": "E5 fullstack", "path": "harness/src/fullstack/", "serves_properties": ["C16", "C19", "C20"], "kind_free_text": "real per-connection tasks (verif_remote) over tokio duplex streams, real router loop on a harness thread, scripted raw-byte clients, sentinel barriers"},
+            {"name": "E5 fullstack", "path": "harness/src/fullstack/", "serves_properties": ["C01", "C06", "C09", "C14", "C16", "C19", "C20"], "kind_free_text": "real per-connection tasks (verif_remote) over tokio duplex streams, real router loop on a harness thread, scripted raw-byte clients, sentinel barriers"},
             {"name": "E6 clientstate", "path": "harness/src/clientstate/", "serves_properties": ["C02", "C07", "C10", "C11"], "kind_free_text": "drivers for rumqttc MqttState v4/v5, reference model of accepted publishes, op interpreter"},
-            {"name": "E4 brokersim", "path": "harness/src/brokersim/", "serves_properties": ["C01", "C03", "C06", "C08", "C09", "C14", "C15", "C16", "C17", "C19", "C20"], "kind_free_text": "deterministic single-threaded driver of the real Router (hooks H1/H2/H4), simulated clients, reference broker model, proptest histories"},
+            {"name": "E4 brokersim", "path": "harness/src/brokersim/", "serves_properties": ["C01", "C03", "C06", "C08", "C09", "C12", "C14", "C15", "C16", "C17", "C19", "C20"], "kind_free_text": "deterministic single-threaded driver of the real Router (hooks H1/H2/H4), simulated clients, reference broker model, proptest histories"},
         ],
         "checks": checks,
         "notes": "All checks are `./check <id>`: it rebuilds /verif/harness (path deps on /repo) and runs target/verif/vcheck. exit 0 held / 1 VIOLATION / 2 inconclusive. Known findings: KNOWN_FINDINGS.txt.",
